@@ -421,6 +421,16 @@ def model_task(task, ybin, root, prop):
             # arrays of the widest integers, filled (below) with single high bits: the values at which a varint gets one byte longer
             protos0[0].steps.append(("steerarru64", M.Arr(M.Prim(pr_.choice(["uint64", "uint64", "size"])), pr_.choice([None, 1, 2])), pr_.chance(0.3)))
             protos0[0].steps.append(("steerarri64", M.Arr(M.Prim("int64"), pr_.choice([None, 1, ((None, 4),), ((None, 2), (None, 3))])), pr_.chance(0.3)))
+            # one generic record instantiated with containers that differ in their element type only (vectors of float / double,
+            # maps to int / double, unions): per-instantiation serializers must not be mixed up within a process
+            pkg.files[fn0].append(M.Record("SteerBox", ("T",), [("payload", M.TParam("T")), ("label", M.Prim("string"))]))
+            box = lambda t_: M.Named("SteerBox", (t_,))
+            protos0[0].steps.append(("steerboxf", box(M.Vec(M.Prim("float32"))), False))
+            protos0[0].steps.append(("steerboxd", box(M.Vec(M.Prim("float64"))), pr_.chance(0.5)))
+            protos0[0].steps.append(("steerboxmi", box(M.Map(M.Prim("string"), M.Prim("int16"))), False))
+            protos0[0].steps.append(("steerboxmd", box(M.Map(M.Prim("string"), M.Prim("float64"))), False))
+            protos0[0].steps.append(("steerboxu1", box(M.Union((("int32", M.Prim("int32")), ("string", M.Prim("string"))))), pr_.chance(0.5)))
+            protos0[0].steps.append(("steerboxu2", box(M.Union((("float64", M.Prim("float64")), ("string", M.Prim("string"))))), False))
             # one generic record, several instantiations with different layouts, as array elements, vector elements and plain values
             pkg.files[fn0].append(M.Record("SteerPair", ("T", "U"), [("first", M.TParam("T")), ("second", M.TParam("U"))]))
             inst = lambda a, b: M.Named("SteerPair", (M.Prim(a), M.Prim(b)))
